@@ -16,6 +16,7 @@ import Scico.Proofs.LinOps7
 import Scico.Proofs.LinOps8
 import Scico.Proofs.LinOps9
 import Scico.Proofs.LinOps10
+import Scico.Proofs.LinOps11
 import Mathlib.Data.Complex.Basic
 import Mathlib.Tactic.NormNum
 
@@ -732,5 +733,37 @@ example : FloorContract (K := ℚ) Rat.floor := fun z => ⟨Rat.le_floor_iff.mp 
   have h' : ((Rat.floor z + 1 : Int) : ℚ) ≤ z := by push_cast; exact not_lt.mp h
   have := Rat.le_floor_iff.mpr h'
   omega⟩
+
+
+/-- end to end for `CircularConvolve` with integer centres over any number of axes: the spectrum the
+    CONSTRUCTOR builds (`fftn(h, s=dims)` times `math.prod` of the three-branch `np.select` phases, `shiftPhaseNd`)
+    followed by `_eval` (`ifftn(h_dft · fftn x)`) is the signal-domain N-d circular convolution.  `E`, `C` enter
+    through `ExpContract` and through `E(−1/n_a)` being a primitive `n_a`-th root of unity (`Roots`). -/
+theorem C04_circ_nd_code {F Q : Type} [Field F] [Field Q] [CharZero Q] {E C : Q → F} (h : ExpContract E C)
+    (dims ks cs : List Nat) (s : F) (hf x : V F) (p : Nat)
+    (hr : Roots dims (dims.map (fun (n : Nat) => E (-(1 / ((n : Nat) : Q))))))
+    (hfit : FitsIn ks dims cs) (hs : s * (prodL dims : F) = 1) (hp : p < prodL dims) :
+    circNdSpecEval dims (dims.map (fun (n : Nat) => E (-(1 / ((n : Nat) : Q)))))
+        (dims.map (fun (n : Nat) => (E (-(1 / ((n : Nat) : Q))))⁻¹)) s
+        (fun f => dftNd dims (dims.map (fun (n : Nat) => E (-(1 / ((n : Nat) : Q))))) (padNd ks dims hf) f
+          * shiftPhaseNd E C (fun m => (m : Q)) (cs.map (fun (c : Nat) => -((c : Nat) : Q))) dims f) x p
+      = circNd ks dims cs hf x p :=
+  circNd_code_eq h dims ks cs s hf x p hr hfit hs hp
+
+/-- `ProjectedGradient` with `cdiff=False`, assembled: for every list of gradient axes `(outer, n, inner)` of an
+    array of `N` entries and coordinate fields `c_m`, the code (`diffstack` = `snp.diff(…, append=x[-1:])` along each
+    axis, then `sum(c[m]·grad[m])`) is multiplication by `Σ_m diag(c_m) · (I ⊗ D_{n_m} ⊗ I)`, `D` the documented
+    `append=0` banded matrix of `C04_fd`. -/
+theorem C04_proj_grad_fd (N : Nat) (x : V K) (i : Nat) (hi : i < N) (l : List (V K × Nat × Nat × Nat))
+    (hl : ∀ s ∈ l, s.2.1 * s.2.2.1 * s.2.2.2 = N ∧ 0 < s.2.2.1) :
+    projEval (l.map (fun s => (s.1, alongAxis s.2.2.1 (fdOutLen diffstackCfg s.2.2.1) s.2.2.2 (fdEval diffstackCfg s.2.2.1) x))) i
+      = mulVec (projMatrix (l.map (fun s => (s.1,
+          kronAxis s.2.2.1 (fdOutLen diffstackCfg s.2.2.1) s.2.2.2 (fdMatrix diffstackCfg s.2.2.1))))) N x i :=
+  projGrad_fd N x i hi l hl
+
+-- a (2,2) image, gradient axes 0 and 1, constant coordinate fields 1 and 2: x = [[1,2],[4,8]]
+example : (List.range 4).map (projEval (α := Int) ([((fun _ => 1), 1, 2, 2), ((fun _ => 2), 2, 2, 1)].map (fun s : V Int × Nat × Nat × Nat =>
+    (s.1, alongAxis s.2.2.1 (fdOutLen diffstackCfg s.2.2.1) s.2.2.2 (fdEval diffstackCfg s.2.2.1) (fun j => [1, 2, 4, 8].getD j 0)))))
+    = [5, 6, 8, 0] := by decide
 
 end Scico.Props.C04
